@@ -6,7 +6,11 @@ package main
 
 import (
 	"fmt"
+	"image/color"
 	"os"
+
+	"github.com/mandykoh/prism/ciexyy"
+	"github.com/mandykoh/prism/ciexyz"
 )
 
 func usage() {
@@ -14,10 +18,44 @@ func usage() {
 	os.Exit(2)
 }
 
+// firstUse: the order in which a process first touches the library's lazily built state must not
+// matter.  PV_FIRSTUSE selects what this process calls before anything else (probed by ./check in
+// fresh processes): "encode" = every encoder first, "decode" = every decoder first, "xyz" = the
+// XYZ/Lab/adaptation paths first.
+func firstUse() {
+	lin := [3]float32{0.25, 0.5, 0.75}
+	switch os.Getenv("PV_FIRSTUSE") {
+	case "encode":
+		for i := range spaces {
+			s := &spaces[i]
+			s.to16(0.5)
+			s.to8(0.5)
+			s.toRGBA64(lin, 0.5)
+			s.toNRGBA(lin, 1)
+		}
+	case "decode":
+		for i := range spaces {
+			s := &spaces[i]
+			s.from16(32768)
+			s.from8(128)
+			s.linearise(color.RGBA64{R: 1000, G: 2000, B: 3000, A: 0xffff})
+		}
+	case "xyz":
+		for i := range spaces {
+			s := &spaces[i]
+			x := s.toXYZ(lin)
+			s.fromXYZ(x)
+			x.ToLAB(ciexyz.D50)
+		}
+		ciexyz.AdaptBetweenXYYWhitePoints(ciexyy.D65, ciexyy.D50)
+	}
+}
+
 func main() {
 	if len(os.Args) < 2 {
 		usage()
 	}
+	firstUse()
 	switch os.Args[1] {
 	case "dump":
 		if len(os.Args) != 3 {
